@@ -362,9 +362,9 @@ func main() {
 		if c.Thorough() {
 			passwords = []string{"empty", "a", "ascii", "utf8", "1KiB", "nul"}
 			salts = [][2]string{{"8:count", "16:stream:s2"}, {"0:zero", "0:zero"}, {"32:zero", "32:ff"}, {"40:stream:s1", "8:count"}}
-			secrets = []string{"1", "2", "2^2047", "ff256", "stream256", "stream32", "1-short"}
+			secrets = []string{"1", "2^2047", "ff256", "stream256", "stream32", "1-short"}
 			groups = []string{"telegram/3", "telegram/4", "rfc3526-14/2", "gen2/6", "gen3/5", "gen1/7", "gen6/4"}
-			bs = [][2]string{{"b:stream", "padded"}, {"b:1", "minimal"}, {"b:2^2047-1", "padded"}, {"raw:2", "minimal"}, {"raw:2", "padded"}, {"raw:p-1", "padded"}}
+			bs = [][2]string{{"b:stream", "padded"}, {"b:1", "minimal"}, {"raw:2", "minimal"}, {"raw:p-1", "padded"}}
 			wrong = []string{"+nul", "+flip", "+flipfirst", "+cut", "+upper"}
 			wrongBase = []string{"empty", "a", "ascii", "utf8", "1KiB"}
 			wrongGroups = []string{"telegram/3", "rfc3526-14/2", "gen3/5"}
